@@ -68,6 +68,7 @@ MUTANTS = {
                               "    def __init__(self, threads_pids={}, pids_names={}):\n        self.threads_pids = threads_pids\n        self.pids_names = pids_names", ['C02']),
     'idx_on_object': (P + 'kd_buf_parser.py', "                log_strings = {v: k for k, v in plistlib.loads(block.data)['StringIndex'].items()}\n\n        for event in log_events:\n            log_event = OsLogEvent.from_raw_log_event(event, log_strings)",
                       "                log_strings = {v: k for k, v in plistlib.loads(block.data)['StringIndex'].items()}\n        self._ls = log_strings\n\n        for event in log_events:\n            log_event = OsLogEvent.from_raw_log_event(event, self._ls)", ['C03']),
+    'date_column_reads_other_switch': (P + 'pykdebugparser.py', "        return f'{time_string:<27}'\n", "        return f'{time_string:<27}' if self.show_process else time_string[:-3] + ' '\n", ['C14']),
     'tp_shared_windows': (P + 'traces_parser.py', "        self.on_going_events = {}\n", "        self.on_going_events = globals().setdefault('_SHARED_EVENTS', {})      # shared between parser objects\n", ['C04', 'C05']),
     'tp_shared_last_data': (P + 'traces_parser.py', "        self.last_data_newthread = {}\n", "        self.last_data_newthread = globals().setdefault('_SHARED_NT', {})\n", ['C05', 'C14']),
     'pk_class_level_tables': (P + 'pykdebugparser.py', "        self.threads_pids = {}\n        self.pids_names = {}\n", "        self.threads_pids = globals().setdefault('_TP', {})\n        self.pids_names = globals().setdefault('_PN', {})\n", ['C14', 'C13']),
